@@ -112,3 +112,26 @@ impl WarpState {
         existed
     }
 }
+
+/// Verification hooks (feature `echo_verif`): enumerate and construct multi-instance states.
+#[cfg(feature = "echo_verif")]
+pub mod verif {
+    use super::{GraphStore, WarpId, WarpInstance, WarpState};
+
+    /// All instance records in canonical order.
+    #[must_use]
+    pub fn instances(state: &WarpState) -> Vec<WarpInstance> {
+        state.iter_instances().map(|(_, i)| i.clone()).collect()
+    }
+
+    /// All store ids in canonical order.
+    #[must_use]
+    pub fn store_ids(state: &WarpState) -> Vec<WarpId> {
+        state.iter_stores().map(|(w, _)| *w).collect()
+    }
+
+    /// `WarpState::upsert_instance` (the constructor patch replay uses).
+    pub fn upsert_instance(state: &mut WarpState, instance: WarpInstance, store: GraphStore) {
+        state.upsert_instance(instance, store);
+    }
+}
